@@ -122,7 +122,7 @@ PROPS = dict(
     ),
     C08=dict(
         verus=['commitlog', 'window'], kani=[], native=['rumqttd'],
-        scope='components proved: commit log resume semantics (a rewound cursor re-reads exactly from there; a cursor into discarded data resumes at the oldest retained entry: Verus), window FIFO (Verus); router-level: session present / subscriptions kept / redelivery from the oldest unacknowledged message explored natively on the real Router (bounded stand-in)',
+        scope='components proved: commit log resume semantics (a rewound cursor re-reads exactly from there; a cursor into discarded data resumes at the oldest retained entry: Verus), window FIFO and Outgoing::retransmission_map (each filter resumes at the cursor of its oldest unacknowledged log entry, retained replays skipped: Verus, loop invariant over the real for-loop); router-level: session present / subscriptions kept / redelivery from the oldest unacknowledged message explored natively on the real Router (bounded stand-in)',
         residual='reconnect histories outside the explored space; QoS 2 release replay across sessions; retention overflow while away',
         trusted_base=['Verus/Z3; rustc as compiled'],
         assumptions=['BOUNDED stand-in at router level: Kani cannot compile a harness in which Router::new is reachable (compiler ICE, measured) and the handler bodies are outside the Verus subset'],
@@ -137,10 +137,10 @@ PROPS = dict(
     ),
     C17=dict(
         level='exploration',
-        verus=[], kani=[], native=['rumqttd'],
-        scope='shared subscriptions explored natively on the real Router: each message to at most one member, never to a non-member, never twice, per-member order, everything forwarded when the group stays non-empty and members acknowledge promptly; 3 strategies',
+        verus=['sharedgroup'], kani=[], native=['rumqttd'],
+        scope='component proved (Verus, unbounded): SharedGroup::{new,is_empty,current_client,add_client,remove_client,update_next_client} keep the turn index inside the group, so the member whose turn it is always exists while the group has members; round robin advances to the next member. Router level: shared subscriptions explored natively on the real Router: each message to at most one member, never to a non-member, never twice, per-member order, everything forwarded when the group stays non-empty and members acknowledge promptly; 3 strategies',
         residual='the known parked-member stall (a member that does not consume) and arbitrary join/leave interleavings beyond one leave are outside the explored space',
-        trusted_base=['rustc as compiled; rand::thread_rng for the Random strategy (every outcome must satisfy the oracle)'],
+        trusted_base=['rustc as compiled; rand::thread_rng for the Random strategy (every outcome must satisfy the oracle)', 'Verus unit sharedgroup: ASSUMED weak contract of Vec::retain (nothing added) and of rand gen_range (result inside the range); which members a removal keeps is decided by the router-level stand-in only'],
         assumptions=['BOUNDED stand-in at router level: Kani cannot compile a harness in which Router::new is reachable (compiler ICE, measured) and the handler bodies are outside the Verus subset'],
     ),
     C04=dict(
